@@ -500,6 +500,10 @@ impl Gen {
                     }
                     Cmd::Evaluate { p }
                 } else if w.last_inc[p].is_some() && self.restarts < self.k.max_restarts {
+                    // two-cluster runs: sometimes the other cluster takes the address over first
+                    if self.k.profile == Profile::TwoClusters && self.r.chance(0.35) {
+                        return Cmd::Rehome { p };
+                    }
                     self.restarts += 1;
                     Cmd::Restart { p }
                 } else {
